@@ -108,7 +108,13 @@ def written_verbatim(t, k, s):
     schema lists that alternative): the documented quote-character limitation concerns quoted values only."""
     from . import printcheck
 
-    return printcheck.required_class(t, k, s) in ("expr", "not-expr", "regex", "list", "bind")
+    if printcheck.required_class(t, k, s) in ("expr", "not-expr", "regex", "list", "bind"):
+        return True
+    # a case-insensitive string ("abc"i) of an expression-capable keyword carries its own quotes and is written as it is
+    st = s.strip()
+    if len(st) >= 3 and st[-1] == "i" and st[0] in "\"'" and st[-2] == st[0] and t in vocab.object_types():
+        return (t, k) in gen.ISTRING_KEYS and not unescaped(st[1:-2], st[0])
+    return False
 
 
 def unescaped(s, quote):
